@@ -53,7 +53,8 @@ class AlgMV:
         fam, ar, inv = c
         if ar is None:
             hi = max([k for k, v in enumerate(ins) if v is not None], default=-1)
-            ar = max(2, hi + 1)
+            ar = ref2.explicit_arity(kind)
+            if ar is None or ref2.SIZED_BY_CONNECTION: ar = max(2, hi + 1)
         v = [(ins[k] if k < len(ins) and ins[k] is not None else self.zero) for k in range(ar)]
         if fam == 'buf': r = self.buf(v[0])
         elif fam == 'and': r = self.and_(*v)
